@@ -60,6 +60,16 @@ func genC11(r *rt.Rand, tier string, idx int) *world.Scenario {
 		sc.Engine, sc.Class = "tikv", "tikv-get-request-fault"
 		sc.Extra = map[string]int64{"tikv_get_fault": int64(1 + r.Intn(10))}
 	}
+	if idx%300 == 77 || idx%300 == 177 {
+		// a batch larger than the engine takes in one transaction (Badger: ~105 000 entries or ~10 MB), ending
+		// in a condition that fails: all of it or nothing, whatever the adapter does about the size
+		sc.Engine = map[int]string{77: "badger", 177: "memkv"}[idx%300]
+		sc.Class = "oversized-batch"
+		sc.Extra = map[string]int64{"huge": int64(105000 + r.Intn(20000))}
+		if r.Chance(0.4) {
+			sc.Extra["huge"], sc.Extra["huge_keylen"] = int64(180+r.Intn(60)), 60000
+		}
+	}
 	nc := 1 + r.Intn(3)
 	vn := 0
 	val := func() string { vn++; return fmt.Sprintf("v%d", vn) }
@@ -233,6 +243,45 @@ func c11Custom(t *testing.T, sc *world.Scenario, out *Outcome) {
 		if err := bw.Commit(ctx); err != nil {
 			out.Infra = "bulk load: " + err.Error()
 			return
+		}
+	}
+	if n := int(sc.Extra["huge"]); n > 0 {
+		pre := st.BeginBatchWrite()
+		pre.Put([]byte("zz-exists"), []byte("e"), 0)
+		if err := pre.Commit(ctx); err != nil {
+			out.Infra = "oversized batch, preload: " + err.Error()
+			return
+		}
+		model["zz-exists"] = "e"
+		pad := ""
+		if l := int(sc.Extra["huge_keylen"]); l > 0 {
+			pad = strings.Repeat("k", l)
+		}
+		hk := func(i int) []byte { return []byte(fmt.Sprintf("h%06d%s", i, pad)) }
+		bw := st.BeginBatchWrite()
+		for i := 0; i < n; i++ {
+			bw.Put(hk(i), []byte("x"), 0)
+		}
+		bw.PutIfNotExist([]byte("zz-exists"), []byte("never"), 0)
+		err := bw.Commit(ctx)
+		visible := 0
+		for i := 0; i < n; i += 1 + n/400 {
+			if _, gerr := st.Get(ctx, hk(i)); gerr == nil {
+				visible++
+			}
+		}
+		if _, gerr := st.Get(ctx, hk(n-1)); gerr == nil {
+			visible++
+		}
+		out.probe("oversized-batch-committed")
+		switch {
+		case err == nil:
+			out.violate(P, "commit-despite-failed-condition", "commit-despite-failed-condition engine="+stack+" oversized-batch", "[%s] a batch of %d writes ending in a put-if-absent of an existing key committed without an error", stack, n)
+		case visible > 0:
+			out.violate(P, "batch-applied-in-part", "batch-applied-in-part engine="+stack+" oversized-batch", "[%s] a batch of %d writes ending in a put-if-absent of an existing key failed (%v), yet %d of the sampled writes are readable", stack, n, err, visible)
+		}
+		if v, gerr := st.Get(ctx, []byte("zz-exists")); gerr != nil || string(v) != "e" {
+			out.violate(P, "batch-applied-in-part", "batch-applied-in-part engine="+stack+" oversized-batch", "[%s] the existing key reads %q, %v after the failed batch", stack, v, gerr)
 		}
 	}
 	w.TiKVScanFaultArmed = true // (only has an effect in the tikv-scan-request-fault class)
